@@ -165,6 +165,10 @@ func flagCases(c *rt.Ctx) []FCase {
 				}
 			}
 		}
+		// (2d) a DROP TABLE with a multi-statement reverse next to an irreversible change (fixed lists)
+		for _, dn := range dropIndexedNames {
+			out = append(out, FCase{Dialect: d, Base: models[0].Name, Shape: "hand:" + dn})
+		}
 		// (3) single edits in both directions, stratified by edit kind over the pool
 		byKind := map[string][]inst{}
 		for _, m := range models {
@@ -226,6 +230,11 @@ func flagCases(c *rt.Ctx) []FCase {
 				FCase{Dialect: "mysql", Flavour: fl, Base: m.Name, Shape: "drop-all"})
 			for _, h := range handNames {
 				out = append(out, FCase{Dialect: "mysql", Flavour: fl, Base: m.Name, Shape: "hand:" + h})
+			}
+			if mi == 0 {
+				for _, dn := range dropIndexedNames {
+					out = append(out, FCase{Dialect: "mysql", Flavour: fl, Base: m.Name, Shape: "hand:" + dn})
+				}
 			}
 			if mi == 0 || !c.Quick() && mi < 4 {
 				for _, pn := range pairNames("mysql") {
